@@ -225,3 +225,29 @@ def npsqrt_law(x, k):
 
 def floor_law(x, k):
     return k * math.floor(x)
+
+
+def guard_param(s, dg, k):
+    # branches on the sign of a bare model quantity (a parameter)
+    if dg < 0:
+        return k * s
+    return -k * s
+
+
+def guard_state(s, k):
+    # branches on the sign of a bare state variable
+    if s < 0:
+        return -k * s
+    return k * s
+
+
+def round_law(x, k):
+    return k * round(x)
+
+
+def nprint_law(x, k):
+    return k * np.rint(x)
+
+
+def ceil_law(x, k):
+    return k * math.ceil(x)
